@@ -48,6 +48,9 @@ type Op struct {
 	NewParent int      `json:"new_parent,omitempty"` // kind reparent: Level moves under this level
 	Lines     []string `json:"lines,omitempty"`      // command / config lines
 	Inter     string   `json:"inter,omitempty"`      // confirm | hidden
+	// FromFile (kinds configs / commands): the lines are written to a file and sent through
+	// SendConfigsFromFile / SendCommandsFromFile.
+	FromFile bool `json:"from_file,omitempty"`
 }
 
 // Sess is a complete case descriptor.
@@ -1177,6 +1180,11 @@ func genFlavourCase(r *rand.Rand) Sess {
 				s.Ops = append(s.Ops, s.opTowards(r, r.Intn(n)))
 			}
 		}
+		var fl []int
+		for i := n0; i < n; i++ {
+			fl = append(fl, i)
+		}
+		s.fromFileDoor(r, fl)
 		return s
 	}
 }
@@ -1261,6 +1269,11 @@ func genWindowCase(r *rand.Rand) Sess {
 				s.Ops = append(s.Ops, s.opTowards(r, r.Intn(n)))
 			}
 		}
+		var fl []int
+		for i := n0; i < n; i++ {
+			fl = append(fl, i)
+		}
+		s.fromFileDoor(r, fl)
 		return s
 	}
 }
@@ -1355,6 +1368,32 @@ func genChatterCase(r *rand.Rand) Sess {
 			s.randomOps(r, 6+r.Intn(7))
 		}
 		return s
+	}
+}
+
+// fromFileDoor sends a share of the configs/commands calls of a finished sequence through the
+// from-file methods and adds from-file config calls that carry WithPrivilegeLevel: one naming a
+// level of `known`, one naming an unknown level. Drawn after everything else, so the rest of the
+// sequence is what it was.
+func (s *Sess) fromFileDoor(r *rand.Rand, known []int) {
+	for i := range s.Ops {
+		switch s.Ops[i].Kind {
+		case "configs":
+			s.Ops[i].FromFile = r.Intn(10) < 4
+		case "commands":
+			s.Ops[i].FromFile = r.Intn(10) < 3
+		}
+	}
+	extra := []Op{
+		{Kind: "configs", FromFile: true, Level: known[r.Intn(len(known))], Lines: s.pickLines(r, 1+r.Intn(3))},
+		{Kind: "configs", FromFile: true, Level: -1, Unknown: s.unknownName(r, false), Lines: s.pickLines(r, 1+r.Intn(2))},
+	}
+	if r.Intn(2) == 0 {
+		extra = append(extra, Op{Kind: "configs", FromFile: true, Level: known[r.Intn(len(known))], Lines: s.pickLines(r, 1)})
+	}
+	for _, op := range extra {
+		at := r.Intn(len(s.Ops) + 1)
+		s.Ops = append(s.Ops[:at:at], append([]Op{op}, s.Ops[at:]...)...)
 	}
 }
 
